@@ -2,7 +2,7 @@
    harness/py2coq.py (coq/Gen/Kernels.v) and the hand-written model of C16/Model.v:
    equal on every input. An edit of comb_jit, _cartesian_index or k_array_rank_jit in
    /repo changes Gen/Kernels.v, and these lemmas must then be re-proved. *)
-From Coq Require Import ZArith List Bool Lia.
+From Coq Require Import ZArith List Bool Lia ZifyBool.
 From QE Require Import Base.Num Gen.Kernels C16.Model.
 Import ListNotations.
 Open Scope Z_scope.
@@ -86,4 +86,63 @@ Proof.
   unfold gen_k_array_rank_jit, k_array_rank_jit, k_array_rank_gen. cbv zeta.
   rewrite gen_rank_loop_eq by (cbn [length]; lia).
   change (Z.to_nat 0) with 0%nat. change (Z.to_nat 1) with 1%nat. cbn [nth skipn]. reflexivity.
+Qed.
+
+(* ---- next_k_array ---- *)
+Lemma upd_nth_app {A} (pre : list A) x r v :
+  upd_nth (pre ++ x :: r) (length pre) v = pre ++ v :: r.
+Proof. induction pre as [|p pre IH]; cbn; [reflexivity|]. rewrite IH. reflexivity. Qed.
+
+Lemma nth_app_at {A} (pre : list A) l d j : nth (length pre + j) (pre ++ l) d = nth j l d.
+Proof. apply app_nth2_plus. Qed.
+
+Lemma gen_nk_loop_eq : forall fuel pre x0 rest,
+  (length (x0 :: rest) <= fuel)%nat -> (1 <= length pre)%nat ->
+  let '(i', a', x') :=
+    gen_next_k_array_loop0 fuel (Z.of_nat (length pre)) (pre ++ x0 :: rest) (x0 + 1)
+                           (Z.of_nat (length (pre ++ x0 :: rest))) in
+  upd_nth a' (Z.to_nat i') x' = pre ++ nk_aux (Z.of_nat (length pre)) (x0 :: rest).
+Proof.
+  induction fuel as [|f IH]; intros pre x0 rest Hf Hpre; cbn [length] in Hf; [lia|].
+  destruct rest as [|y r]; cbn [gen_next_k_array_loop0]; rewrite app_length; cbn [length].
+  - (* last position: i = k-1 *)
+    replace (Z.of_nat (length pre) <? Z.of_nat (length pre + 1) - 1) with false by lia.
+    cbn [andb nk_aux]. rewrite Nat2Z.id. apply upd_nth_app.
+  - replace (Z.of_nat (length pre) <? Z.of_nat (length pre + S (S (length r))) - 1) with true by lia.
+    cbn [andb].
+    replace (Z.to_nat (Z.of_nat (length pre) + 1)) with (length pre + 1)%nat by lia.
+    rewrite (nth_app_at pre (x0 :: y :: r) 0 1). cbn [nth nk_aux].
+    destruct (x0 + 1 =? y) eqn:E.
+    + replace (Z.to_nat (Z.of_nat (length pre) + 1 - 1)) with (length pre) by lia.
+      rewrite upd_nth_app.
+      replace (Z.of_nat (length pre) + 1 - 1) with (Z.of_nat (length pre)) by lia.
+      replace (pre ++ Z.of_nat (length pre) :: y :: r) with ((pre ++ [Z.of_nat (length pre)]) ++ y :: r)
+        by (rewrite <- app_assoc; reflexivity).
+      replace (length pre + 1)%nat with (length (pre ++ [Z.of_nat (length pre)]) + 0)%nat
+        by (rewrite app_length; cbn; lia).
+      rewrite (nth_app_at (pre ++ [Z.of_nat (length pre)]) (y :: r) 0 0). cbn [nth].
+      pose proof (IH (pre ++ [Z.of_nat (length pre)]) y r ltac:(cbn [length] in *; lia)
+                     ltac:(rewrite app_length; cbn; lia)) as R.
+      replace (Z.of_nat (length (pre ++ [Z.of_nat (length pre)]))) with (Z.of_nat (length pre) + 1) in R
+        by (rewrite app_length; cbn [length]; lia).
+      replace (Z.of_nat (length ((pre ++ [Z.of_nat (length pre)]) ++ y :: r)))
+        with (Z.of_nat (length pre + S (S (length r)))) in R
+        by (rewrite !app_length; cbn [length]; lia).
+      destruct (gen_next_k_array_loop0 f _ _ _ _) as [[i' a'] x'].
+      rewrite R. rewrite <- app_assoc. reflexivity.
+    + rewrite Nat2Z.id. apply upd_nth_app.
+Qed.
+
+Lemma gen_next_k_array_eq : forall a, gen_next_k_array a = next_k_array a.
+Proof.
+  intros [|x [|y r]]; unfold gen_next_k_array, next_k_array; cbv zeta.
+  - reflexivity.
+  - reflexivity.
+  - cbn [length]. replace (Z.of_nat (S (S (length r))) =? 1) with false by lia. cbn [orb].
+    change (Z.to_nat 0) with 0%nat. change (Z.to_nat 1) with 1%nat. cbn [nth upd_nth].
+    destruct (x + 1 <? y); [reflexivity|].
+    pose proof (gen_nk_loop_eq (S (S (length r))) [0] y r ltac:(cbn [length]; lia) ltac:(cbn; lia)) as R.
+    cbn [app length] in R. change (Z.of_nat 1) with 1 in R.
+    destruct (gen_next_k_array_loop0 _ 1 (0 :: y :: r) (y + 1) _) as [[i' a'] x'].
+    exact R.
 Qed.
